@@ -4,10 +4,10 @@ import "strings"
 
 // E5: order-relation facts.  A relation is a subset of {<,=,>} over a pair of terms.
 const (
-	rLT uint8 = 1
-	rEQ uint8 = 2
-	rGT uint8 = 4
-	rAny      = rLT | rEQ | rGT
+	rLT  uint8 = 1
+	rEQ  uint8 = 2
+	rGT  uint8 = 4
+	rAny       = rLT | rEQ | rGT
 )
 
 func relString(r uint8) string {
